@@ -115,8 +115,14 @@ def w_solve(ctx, rng, idx):
                   {'err': errs[0][0], 'norm': nx, 'cond': cA, 'dims': dims, 'guess_ranks': g.ranks}, prop=P)
     # rank-capped MALS
     if use_mals:
-        mr = int(rng.integers(1, 4))
-        call('sle.mals', sle.mals, A, g, b, prop=P, tags=tags, refusals=(np.linalg.LinAlgError,), repeats=1, solver=solver, max_rank=mr)
+        # every combination of the cap with the other truncation setting (threshold 0 switches the relative cut off entirely,
+        # the cap must still apply), from every kind of guess and for more than one sweep
+        for thr in (0, 1e-12, None):
+            mr = int(rng.integers(1, 4))
+            kw2 = {'solver': solver, 'max_rank': mr, 'repeats': int(rng.integers(1, 3))}
+            if thr is not None:
+                kw2['threshold'] = thr
+            call('sle.mals', sle.mals, A, g, b, prop=P, tags=tags + ['capped', 'threshold=%s' % thr], refusals=(np.linalg.LinAlgError,), **kw2)
     if idx < 4:
         ctx.sample({'workload': 'solve', 'solver': name + '/' + solver, 'dims': dims, 'operator': okind, 'complex': cplx, 'guess_ranks': g.ranks,
                     'A_norm_error_guess_r1_r2_r3': [e0[0]] + [e[0] for e in errs]})
